@@ -405,3 +405,73 @@ def ob_e(ob):
         else:
             ob.verdict(v, "e:core-core")
     ob.require(len(seen) >= 1, "no division recorded in pair_nuclear_energy")
+
+
+def replay_quantum_numbers(qi, qj):
+    """float64, real overlap routine for one pair whose atoms have principal quantum numbers (qi, qj), qi >= qj: the
+    supported combinations are those with both numbers <= 3; everything else must raise"""
+    from seqm.seqm_functions.diat_overlap_PM6_SP import diatom_overlap_matrix_PM6_SP as OV
+
+    qn = torch.tensor([0, qi, qj])
+    try:
+        OV(torch.tensor([1]), torch.tensor([2]), torch.tensor([[0.3, 0.4, 0.8660254037844386]], dtype=torch.float64), torch.tensor([3.0], dtype=torch.float64), torch.tensor([[1.3, 1.1]], dtype=torch.float64), torch.tensor([[1.2, 0.9]], dtype=torch.float64), qn)
+        accepted = True
+    except ValueError:
+        accepted = False
+    supported = 1 <= qj <= qi <= 3
+    print("replay overlap routine with principal quantum numbers (%d, %d): accepted=%s, supported=%s" % (qi, qj, accepted, supported))
+    return accepted != supported
+
+
+class _Reached(Exception):
+    pass
+
+
+@obligation(PID, "f", title="unsupported principal quantum numbers: the Slater-overlap routine goes on to its formulas exactly for the pairs (n_i, n_j) with n_j <= n_i <= 3 and raises for every other pair of integers (no pair with n >= 4 is evaluated with another row's formulas)")
+def ob_f(ob):
+    from seqm.seqm_functions import diat_overlap_PM6_SP as DO
+
+    ob.encodes(DO.diatom_overlap_matrix_PM6_SP)
+    ob.bound("one pair; the two principal quantum numbers symbolic integers in [0, 9] with n_i >= n_j (the Parser orders a pair by atomic number); path forking over the dispatch table and its guard")
+    ob.assume("the auxiliary-integral routine SET is a sentinel: reaching it means the pair was accepted (its formulas are C06.g)")
+    qi, qj = z3.Ints("qi qj")
+    assm = [qi >= 0, qi <= 9, qj >= 0, qj <= 9, qi >= qj]
+    saved = DO.SET
+
+    def sentinel(*a, **k):
+        raise _Reached()
+
+    DO.SET = sentinel
+
+    def fn():
+        qn = SymTensor(np.array([z3.IntVal(0), qi, qj], dtype=object))
+        try:
+            with symbolic_factories(bool_symbolic=True):
+                DO.diatom_overlap_matrix_PM6_SP(torch.tensor([1]), torch.tensor([2]), torch.tensor([[0.3, 0.4, 0.8660254037844386]], dtype=torch.float64), torch.tensor([3.0], dtype=torch.float64), torch.tensor([[1.3, 1.1]], dtype=torch.float64), torch.tensor([[1.2, 0.9]], dtype=torch.float64), qn)
+        except _Reached:
+            return "accepted"
+        except ValueError:
+            return "raised"
+        raise HarnessError("overlap routine returned without reaching the sentinel")
+
+    try:
+        ex = Explorer(assumptions=assm, piecewise="ite", kind="auto", max_paths=60)
+        res = ex.run(fn)
+    finally:
+        DO.SET = saved
+    ob.paths += ex.paths
+    kinds = {r for _, _, r in res}
+    ob.require(kinds == {"accepted", "raised"}, "expected accepting and raising paths, got %s" % kinds)
+    supported = z3.And(qj >= 1, qi <= 3)
+    for pc, side, r in res:
+        claim = supported if r == "accepted" else z3.Not(supported)
+        lab = "f:%s path" % r
+        v, m = smt.prove(claim, assm + list(pc) + list(side), lab, "auto", 30)
+        if v == "sat":
+            a, b = int(str(m.eval(qi, model_completion=True))), int(str(m.eval(qj, model_completion=True)))
+            if replay_quantum_numbers(a, b):
+                ob.violation("overlap routine %s a pair with principal quantum numbers (%d, %d) although exactly the pairs with n_j <= n_i <= 3 are implemented" % ("evaluates" if r == "accepted" else "rejects", a, b), {"module": "harness.C18", "func": "replay_quantum_numbers", "args": {"qi": a, "qj": b}})
+                return
+            raise HarnessError("quantum-number counterexample (%d,%d) did not reproduce" % (a, b))
+        ob.verdict(v, lab)
+    expect_refuted(ob, z3.And(qj >= 1, qi <= 2), assm + [qi == 3, qj == 1], "twin: (3,1) is supported", "auto")
